@@ -64,9 +64,13 @@ LitValue(s) ==
 (* may: some operation on the way had an unspecified outcome - the real     *)
 (* evaluation may have given up there (a host exception ends the formula   *)
 (* with an error), so later events need not occur                          *)
-RM(e, ev, may) == [ab |-> "", e |-> e, ev |-> ev, may |-> may \/ e.k = "any"]
+(* fl: the number was produced by binary floating-point arithmetic that need *)
+(* not be exact (a division, decimal fractions): its text under & is then     *)
+(* not fixed ("14" or "13.999999999999998")                                   *)
+RM(e, ev, may) == [ab |-> "", e |-> e, ev |-> ev, may |-> may \/ e.k = "any", fl |-> FALSE]
+RF(r, fl) == [r EXCEPT !.fl = fl]
 R(e, ev) == RM(e, ev, FALSE)
-AbM(c, ev, may) == [ab |-> c, e |-> EAny, ev |-> ev, may |-> may]
+AbM(c, ev, may) == [ab |-> c, e |-> EAny, ev |-> ev, may |-> may, fl |-> FALSE]
 Ab(c, ev) == AbM(c, ev, FALSE)
 Det(e) == e.k = "val"
 RECURSIVE ValOf(_)
@@ -141,11 +145,11 @@ RECURSIVE Ev(_, _), EvSeq(_, _)
 
 (* evaluates a sequence of nodes left to right; stops at the first abort   *)
 EvSeq(ns, env) ==
-  IF ns = <<>> THEN [ab |-> "", es |-> <<>>, ev |-> <<>>, may |-> FALSE]
+  IF ns = <<>> THEN [ab |-> "", es |-> <<>>, ev |-> <<>>, may |-> FALSE, fl |-> FALSE]
   ELSE LET h == Ev(Head(ns), env) IN
-       IF h.ab # "" THEN [ab |-> h.ab, es |-> <<>>, ev |-> h.ev, may |-> h.may]
+       IF h.ab # "" THEN [ab |-> h.ab, es |-> <<>>, ev |-> h.ev, may |-> h.may, fl |-> FALSE]
        ELSE LET t == EvSeq(Tail(ns), env) IN
-            [ab |-> t.ab, es |-> <<h.e>> \o t.es, ev |-> h.ev \o t.ev, may |-> h.may \/ t.may]
+            [ab |-> t.ab, es |-> <<h.e>> \o t.es, ev |-> h.ev \o t.ev, may |-> h.may \/ t.may, fl |-> h.fl \/ t.fl]
 
 CallExpect(f, es, env) ==
   LET args == [i \in 1..Len(es) |-> ValOf(es[i])]
@@ -166,18 +170,21 @@ CallExpect(f, es, env) ==
      ELSE Ab("#NAME?", <<>>)
 
 Ev(n, env) ==
-  CASE n.k = "num" -> R(OfVal(LitValue(n.s)), <<>>)
+  CASE n.k = "num" -> RF(R(OfVal(LitValue(n.s)), <<>>), LET v == LitValue(n.s) IN IF v.t = "num" THEN v.d # 1 ELSE FALSE)
     [] n.k = "str" -> R(EVal(Txt(n.s)), <<>>)
     [] n.k = "errlit" -> Ab(n.c, <<>>)
     [] n.k = "omit" -> R(EVal(Blank), <<>>)
     [] n.k = "paren" -> Ev(n.e, env)
     [] n.k = "neg" -> LET r == Ev(n.e, env) IN
-                      IF r.ab # "" THEN r ELSE RM(NegExpect(ValOf(r.e)), r.ev, r.may)
+                      IF r.ab # "" THEN r ELSE RF(RM(NegExpect(ValOf(r.e)), r.ev, r.may), r.fl)
     [] n.k = "bin" -> LET l == Ev(n.l, env) IN
                       IF l.ab # "" THEN l
                       ELSE LET r == Ev(n.r, env) IN
                            IF r.ab # "" THEN AbM(r.ab, l.ev \o r.ev, l.may \/ r.may)
-                           ELSE RM(BinExpect(n.op, l.e, r.e), l.ev \o r.ev, l.may \/ r.may)
+                           ELSE IF n.op = "&" /\ ((l.fl /\ ValOf(l.e).t = "num") \/ (r.fl /\ ValOf(r.e).t = "num"))
+                                THEN RM(EAny, l.ev \o r.ev, l.may \/ r.may)
+                           ELSE RF(RM(BinExpect(n.op, l.e, r.e), l.ev \o r.ev, l.may \/ r.may),
+                                   n.op \in {"+", "-", "*", "/"} /\ (l.fl \/ r.fl \/ n.op = "/"))
     [] n.k = "var" ->
          LET sv == LastNonBlank(SetVals(env.varsets, n.name), Blank)
              ev == <<[k |-> "var", name |-> n.name]>>
@@ -200,7 +207,7 @@ Ev(n, env) ==
     [] n.k = "call" -> LET r == EvSeq(n.args, env) IN
                        IF r.ab # "" THEN AbM(r.ab, r.ev, r.may)
                        ELSE LET c == CallExpect(n.f, r.es, env) IN
-                            [ab |-> c.ab, e |-> c.e, ev |-> r.ev \o c.ev, may |-> r.may \/ c.may]
+                            [ab |-> c.ab, e |-> c.e, ev |-> r.ev \o c.ev, may |-> r.may \/ c.may, fl |-> r.fl]
 
 (* public events (what listeners see) and custom-function invocations of an *)
 (* expected event sequence ("xcall" = invoked, raised, no event)             *)
